@@ -954,4 +954,109 @@ pub mod verif_hooks {
     pub fn space_fallback(c: char) -> u8 {
         c.space_fallback()
     }
+
+    use alloc::vec;
+    use alloc::vec::Vec;
+
+    /// `char::is_default_ignorable` for any scalar value (false for surrogates / out of range).
+    pub fn is_default_ignorable_u32(c: u32) -> bool {
+        match char::try_from(c) {
+            Ok(ch) => ch.is_default_ignorable(),
+            Err(_) => false,
+        }
+    }
+
+    /// Maximal ranges `[a, b]` (inclusive) of default-ignorable scalar values inside `[lo, hi)`.
+    pub fn default_ignorable_ranges(lo: u32, hi: u32) -> Vec<(u32, u32)> {
+        let mut out: Vec<(u32, u32)> = Vec::new();
+        let mut c = lo;
+        while c < hi {
+            if is_default_ignorable_u32(c) {
+                match out.last_mut() {
+                    Some(last) if last.1 + 1 == c => last.1 = c,
+                    _ => out.push((c, c)),
+                }
+            }
+            c += 1;
+        }
+        out
+    }
+
+    /// Per-character Unicode data as the shaper sees it:
+    /// (gc, modified ccc, default-ignorable, ext-pict, space fallback, mirrored, vertical,
+    ///  is_variation_selector, decomposes or is the second element of a canonical composition)
+    pub fn char_props(c: u32) -> Option<(u32, u8, bool, bool, u8, Option<u32>, Option<u32>, bool, bool)> {
+        let ch = char::try_from(c).ok()?;
+        // second element of some canonical composition (first elements alone never make the
+        // normalizer act: composition is only attempted with a following mark)
+        let in_comp_table = super::super::unicode_norm::COMPOSITION_TABLE
+            .iter()
+            .any(|item| (item.0 & 0xFFFF_FFFF) as u32 == c);
+        let hangul = (V_BASE..V_BASE + V_COUNT).contains(&c)
+            || (T_BASE..T_BASE + T_COUNT).contains(&c)
+            || (S_BASE..S_BASE + S_COUNT).contains(&c);
+        Some((
+            ch.general_category().to_rb(),
+            ch.modified_combining_class(),
+            ch.is_default_ignorable(),
+            ch.is_emoji_extended_pictographic(),
+            ch.space_fallback(),
+            ch.mirrored().map(u32::from),
+            ch.vertical().map(u32::from),
+            ch.is_variation_selector(),
+            decompose(ch).is_some() || in_comp_table || hangul,
+        ))
+    }
+
+    /// true when the normalizer could change this text: some character decomposes, some ordered
+    /// pair composes, or some character has a non-zero modified combining class.
+    pub fn normalizer_may_act(text: &[char]) -> bool {
+        for &a in text {
+            if decompose(a).is_some() || a.modified_combining_class() != 0 {
+                return true;
+            }
+            for &b in text {
+                if compose(a, b).is_some() {
+                    return true;
+                }
+            }
+        }
+        false
+    }
+
+    /// Numeric constants the model mirrors: (name, value).
+    pub fn constants() -> Vec<(&'static str, u32)> {
+        use hb_gc::*;
+        use hb_unicode_funcs_t as sp;
+        vec![
+            ("GC_CONTROL", RB_UNICODE_GENERAL_CATEGORY_CONTROL),
+            ("GC_FORMAT", RB_UNICODE_GENERAL_CATEGORY_FORMAT),
+            ("GC_UNASSIGNED", RB_UNICODE_GENERAL_CATEGORY_UNASSIGNED),
+            ("GC_PRIVATE_USE", RB_UNICODE_GENERAL_CATEGORY_PRIVATE_USE),
+            ("GC_LOWERCASE_LETTER", RB_UNICODE_GENERAL_CATEGORY_LOWERCASE_LETTER),
+            ("GC_MODIFIER_LETTER", RB_UNICODE_GENERAL_CATEGORY_MODIFIER_LETTER),
+            ("GC_OTHER_LETTER", RB_UNICODE_GENERAL_CATEGORY_OTHER_LETTER),
+            ("GC_TITLECASE_LETTER", RB_UNICODE_GENERAL_CATEGORY_TITLECASE_LETTER),
+            ("GC_UPPERCASE_LETTER", RB_UNICODE_GENERAL_CATEGORY_UPPERCASE_LETTER),
+            ("GC_SPACING_MARK", RB_UNICODE_GENERAL_CATEGORY_SPACING_MARK),
+            ("GC_ENCLOSING_MARK", RB_UNICODE_GENERAL_CATEGORY_ENCLOSING_MARK),
+            ("GC_NON_SPACING_MARK", RB_UNICODE_GENERAL_CATEGORY_NON_SPACING_MARK),
+            ("GC_DECIMAL_NUMBER", RB_UNICODE_GENERAL_CATEGORY_DECIMAL_NUMBER),
+            ("GC_MODIFIER_SYMBOL", RB_UNICODE_GENERAL_CATEGORY_MODIFIER_SYMBOL),
+            ("GC_OTHER_SYMBOL", RB_UNICODE_GENERAL_CATEGORY_OTHER_SYMBOL),
+            ("GC_SPACE_SEPARATOR", RB_UNICODE_GENERAL_CATEGORY_SPACE_SEPARATOR),
+            ("SPACE_EM", sp::SPACE_EM as u32),
+            ("SPACE_EM_2", sp::SPACE_EM_2 as u32),
+            ("SPACE_EM_3", sp::SPACE_EM_3 as u32),
+            ("SPACE_EM_4", sp::SPACE_EM_4 as u32),
+            ("SPACE_EM_5", sp::SPACE_EM_5 as u32),
+            ("SPACE_EM_6", sp::SPACE_EM_6 as u32),
+            ("SPACE_EM_16", sp::SPACE_EM_16 as u32),
+            ("SPACE_4_EM_18", sp::SPACE_4_EM_18 as u32),
+            ("SPACE", sp::SPACE as u32),
+            ("SPACE_FIGURE", sp::SPACE_FIGURE as u32),
+            ("SPACE_PUNCTUATION", sp::SPACE_PUNCTUATION as u32),
+            ("SPACE_NARROW", sp::SPACE_NARROW as u32),
+        ]
+    }
 }
